@@ -65,4 +65,18 @@ EmitTree ==
                        marker |-> MarkerFor(slot, Str),
                        path |-> IF slot = "device-path" THEN Str ELSE Cp("/dev/mdt0"),
                        path0 |-> IF slot = "device-path" THEN MarkerPlain ELSE Cp("/dev/mdt0")]))
+
+\* every "kind" of character once in every slot (after an ordinary letter): all of ASCII, the C1 controls and
+\* representatives of the classes beyond (a range test written with the wrong bound shows on ONE character)
+SingleCps == (1..159) \cup {160, 173, 255, 256, 304, 305, 768, 2047, 2048, 8203, 8232, 8233, 8238, 12288, 55295, 57344, 65279, 65533, 65535,
+                            65536, 119070, 128512, 1114111}
+EmitSingles ==
+  vSeq = <<>> =>
+    \A c \in SingleCps : \A i \in 1..Len(Slots) :
+      LET slot == Slots[i]  s == <<97, c>> IN
+      SlotOk(slot, s) =>
+        PrintT(ToJson([t |-> TreeFor(slot, s), t0 |-> TreeFor(slot, MarkerFor(slot, s)), o |-> OptsInit, slot |-> slot, u |-> s,
+                       marker |-> MarkerFor(slot, s),
+                       path |-> IF slot = "device-path" THEN s ELSE Cp("/dev/mdt0"),
+                       path0 |-> IF slot = "device-path" THEN MarkerPlain ELSE Cp("/dev/mdt0")]))
 =============================================================================
